@@ -446,16 +446,17 @@ func (e *vfc28Exec) check(op vfc28Op) {
 // real blocks
 
 type vfc28Blk struct {
-	ID    ulid.ULID
-	Dir   string
-	Segs  int
-	Files map[string]int64
+	ID           ulid.ULID
+	Dir          string
+	Segs         int
+	Files        map[string]int64
+	FilesVariant string // what the local meta.json carries in thanos.files
 }
 
 var vfc28Logger = log.NewNopLogger()
 
 // vfc28BuildBlock writes a real TSDB block (head -> LeveledCompactor.Write) with wantSegs chunk segment files into parent.
-func vfc28BuildBlock(parent string, rng *rand.Rand, wantSegs int, mint, maxt int64, ext map[string]string) (blk vfc28Blk, err error) {
+func vfc28BuildBlock(parent string, rng *rand.Rand, wantSegs int, mint, maxt int64, ext map[string]string, filesVariant string) (blk vfc28Blk, err error) {
 	ctx := context.Background()
 	headOpts := tsdb.DefaultHeadOptions()
 	headOpts.ChunkDirRoot = filepath.Join(parent, "vfhead")
@@ -541,10 +542,6 @@ func vfc28BuildBlock(parent string, rng *rand.Rand, wantSegs int, mint, maxt int
 	if err != nil {
 		return blk, errors.Wrap(err, "read meta")
 	}
-	m.Thanos = metadata.Thanos{Labels: ext, Downsample: metadata.ThanosDownsample{Resolution: 0}, Source: metadata.TestSource}
-	if err := m.WriteToDir(vfc28Logger, blk.Dir); err != nil {
-		return blk, errors.Wrap(err, "write meta")
-	}
 	for _, de := range des {
 		fi, err := de.Info()
 		if err != nil {
@@ -556,8 +553,61 @@ func vfc28BuildBlock(parent string, rng *rand.Rand, wantSegs int, mint, maxt int
 	if err != nil {
 		return blk, err
 	}
+	m.Thanos = metadata.Thanos{Labels: ext, Downsample: metadata.ThanosDownsample{Resolution: 0}, Source: metadata.TestSource}
+	blk.Files[thanosblock.IndexFilename] = fi.Size()
+	m.Thanos.Files = vfc28LocalFilesSection(blk, filesVariant)
+	blk.FilesVariant = filesVariant
+	if err := m.WriteToDir(vfc28Logger, blk.Dir); err != nil {
+		return blk, errors.Wrap(err, "write meta")
+	}
 	blk.Files[thanosblock.IndexFilename] = fi.Size()
 	return blk, nil
+}
+
+// vfc28FilesVariants: what the LOCAL meta.json says in thanos.files before the block is handed to the code
+// under test. Blocks written by a TSDB have no such section; blocks derived from other blocks (downsampling,
+// rewriting, anything that starts from a copy of a downloaded meta.json) or prepared by tools carry one that
+// may describe a different block. The invariant on the bucket does not depend on it.
+var vfc28FilesVariants = []string{"none", "correct", "stale-from-larger-block", "entries-without-sizes", "entries-for-absent-files"}
+
+func vfc28LocalFilesSection(blk vfc28Blk, variant string) []metadata.File {
+	var names []string
+	for n := range blk.Files {
+		names = append(names, n)
+	}
+	names = append(names, thanosblock.MetaFilename)
+	sort.Strings(names)
+	var out []metadata.File
+	switch variant {
+	case "none":
+		return nil
+	case "correct":
+		for _, n := range names {
+			out = append(out, metadata.File{RelPath: n, SizeBytes: blk.Files[n]})
+		}
+	case "stale-from-larger-block":
+		// inherited from the (larger, one more segment) block this one was derived from
+		for _, n := range names {
+			f := metadata.File{RelPath: n}
+			if n != thanosblock.MetaFilename {
+				f.SizeBytes = 3*blk.Files[n] + 1024
+			}
+			out = append(out, f)
+		}
+		out = append(out, metadata.File{RelPath: fmt.Sprintf("%s/%06d", thanosblock.ChunksDirname, blk.Segs+1), SizeBytes: 4096})
+	case "entries-without-sizes":
+		// as written by helpers that only record hashes
+		for _, n := range names {
+			out = append(out, metadata.File{RelPath: n, Hash: &metadata.ObjectHash{Func: metadata.SHA256Func, Value: "0000000000000000000000000000000000000000000000000000000000000000"}})
+		}
+	case "entries-for-absent-files":
+		for _, n := range names {
+			out = append(out, metadata.File{RelPath: n, SizeBytes: blk.Files[n]})
+		}
+		out = append(out, metadata.File{RelPath: thanosblock.ChunksDirname + "/000009", SizeBytes: 123}, metadata.File{RelPath: "tombstones", SizeBytes: 9})
+	}
+	sort.Slice(out, func(i, j int) bool { return out[i].RelPath < out[j].RelPath })
+	return out
 }
 
 // ---------------------------------------------------------------------------------------------
@@ -583,7 +633,7 @@ func vfc28CopyInto(dst *objstore.InMemBucket, objs map[string][]byte) error {
 func vfc28UploadScenario(blk vfc28Blk, conc int, hf metadata.HashFunc, pre map[string][]byte, preName string) *vfc28Scenario {
 	return &vfc28Scenario{
 		driver:  "block.Upload",
-		variant: fmt.Sprintf("upload-concurrency=%d/hash=%q/bucket-before=%s", conc, hf, preName),
+		variant: fmt.Sprintf("upload-concurrency=%d/hash=%q/bucket-before=%s/local-files-section=%s", conc, hf, preName, blk.FilesVariant),
 		segs:    blk.Segs,
 		prep: func(e *vfc28Exec) (*vfc28Bucket, error) {
 			in := objstore.NewInMemBucket()
@@ -597,14 +647,16 @@ func vfc28UploadScenario(blk vfc28Blk, conc int, hf metadata.HashFunc, pre map[s
 
 func vfc28ShipperScenario(tsdbDir string, blks []vfc28Blk, conc int, hf metadata.HashFunc, ooo bool) *vfc28Scenario {
 	segs := 0
+	var fv []string
 	for _, b := range blks {
 		if b.Segs > segs {
 			segs = b.Segs
 		}
+		fv = append(fv, b.FilesVariant)
 	}
 	return &vfc28Scenario{
 		driver:  "Shipper.Sync",
-		variant: fmt.Sprintf("blocks=%d/upload-concurrency=%d/hash=%q/allow-out-of-order=%v", len(blks), conc, hf, ooo),
+		variant: fmt.Sprintf("blocks=%d/upload-concurrency=%d/hash=%q/allow-out-of-order=%v/local-files-section=%s", len(blks), conc, hf, ooo, strings.Join(fv, "+")),
 		segs:    segs,
 		prep: func(e *vfc28Exec) (*vfc28Bucket, error) {
 			if err := os.RemoveAll(filepath.Join(tsdbDir, shipper.DefaultMetaFilename)); err != nil {
@@ -762,11 +814,11 @@ func vfc28RunScenario(t *testing.T, r *vfkit.Run, c int, sc *vfc28Scenario) {
 func TestVF_C28(t *testing.T) {
 	r := vfkit.Start(t, "C28")
 	defer r.Finish()
-	r.Rule("case = one real TSDB block with 1..3 chunk segment files (plus, in half of the cases, a second one) x 4 drivers: block.Upload (concurrency 1|4), shipper.Shipper.Sync, replicationScheme.execute (invariant on the destination), block.Delete (with/without deletion mark, no-compact mark, already partial); " +
+	r.Rule("case = one real TSDB block with 1..3 chunk segment files (plus, in half of the cases, a second one) whose LOCAL meta.json carries no thanos.files section | a correct one | a stale one inherited from a larger block | entries without sizes | entries for files that do not exist (cycled over the cases) x 4 drivers: block.Upload (concurrency 1|4), shipper.Shipper.Sync, replicationScheme.execute (invariant on the destination), block.Delete (with/without deletion mark, no-compact mark, already partial); " +
 		"per driver one fault-free run and, for EVERY bucket operation k of that run, runs with a fault at k (fail-stop|fail-once x mutation lost|applied-without-reply) each followed by re-invocation until success; " +
 		"oracle = online checker called by the fault bucket after every applied mutation, reading the in-memory bucket directly: every block whose meta.json is present has every file meta.json lists with the recorded size; a block whose deletion started with a deletion mark keeps the mark while any other object of it exists; " +
 		"evaluation = one inspected bucket state; distinct = (case, driver variant, fault mode, k) of runs in which the fault was really injected and a state with a visible meta.json (listing files) or an unfinished marked deletion was inspected")
-	n := r.N(9, 60)
+	n := r.N(10, 200)
 	r.Require(int64(n)*300, n*40)
 	r.Assume("an object becomes visible atomically (objstore contract; the in-memory bucket commits an upload in one step)")
 	r.Assume("crash at point k == the operation sequence stops after a prefix: every prefix is inspected online; fail-stop runs add the error/cleanup paths; real SIGKILL adds nothing for a bucket-state invariant and is not used")
@@ -786,19 +838,22 @@ func TestVF_C28(t *testing.T) {
 		tBuild := time.Now()
 		segs := 1 + c%3
 		base := int64(1_600_000_000_000)
-		blk, err := vfc28BuildBlock(tsdbDir, rng, segs, base, base+7_200_000, ext)
+		blk, err := vfc28BuildBlock(tsdbDir, rng, segs, base, base+7_200_000, ext, vfc28FilesVariants[c%len(vfc28FilesVariants)])
 		if err != nil {
 			vfc28Fatal(t, r, "building block: %v", err)
 		}
 		blks := []vfc28Blk{blk}
 		if rng.Intn(2) == 0 {
-			b2, err := vfc28BuildBlock(tsdbDir, rng, 1+rng.Intn(2), base+7_200_000, base+14_400_000, ext)
+			b2, err := vfc28BuildBlock(tsdbDir, rng, 1+rng.Intn(2), base+7_200_000, base+14_400_000, ext, vfkit.Pick(rng, vfc28FilesVariants))
 			if err != nil {
 				vfc28Fatal(t, r, "building block: %v", err)
 			}
 			blks = append(blks, b2)
 		}
 		r.Count(fmt.Sprintf("blocks_with_%d_segments", blk.Segs), 1)
+		for _, b := range blks {
+			r.Count("local_meta_files_section:"+b.FilesVariant, 1)
+		}
 		r.Count("wall_ms(informational):building-blocks", int(time.Since(tBuild).Milliseconds()))
 
 		// complete copies in a plain bucket: replication source and deletion template
